@@ -42,6 +42,9 @@ pub struct Srw {
     pub facts: Vec<Option<u8>>,
     pub fi: usize,
     pub log: Log,
+    /// whether `read_vectored` / `write_vectored` really scatter / gather (like a socket) or fall back to the trait's
+    /// defaults; set on the implementation side only (the std twins and the model use the defaults)
+    pub vectored: bool,
 }
 
 fn res_str(r: &std::io::Result<usize>) -> String {
@@ -113,7 +116,7 @@ impl Srw {
                 _ => return None,
             });
         }
-        Some(Srw { id: p[0].parse().ok()?, data: crate::replay::unhex(p[1])?, pos: 0, racts, ri: 0, wacts, wi: 0, facts, fi: 0, log: log.clone() })
+        Some(Srw { id: p[0].parse().ok()?, data: crate::replay::unhex(p[1])?, pos: 0, racts, ri: 0, wacts, wi: 0, facts, fi: 0, log: log.clone(), vectored: false })
     }
     pub fn twin(&self, log: &Log) -> Srw {
         let mut t = self.clone();
@@ -123,6 +126,16 @@ impl Srw {
 }
 
 impl Read for Srw {
+    fn read_vectored(&mut self, bufs: &mut [std::io::IoSliceMut<'_>]) -> std::io::Result<usize> {
+        if self.vectored {
+            uncounted(|| self.scatter(bufs))
+        } else {
+            match bufs.iter_mut().find(|b| !b.is_empty()) {
+                Some(b) => self.read(b),
+                None => self.read(&mut []),
+            }
+        }
+    }
     fn read(&mut self, dest: &mut [u8]) -> std::io::Result<usize> {
         uncounted(|| {
             let a = self.racts.get(self.ri).cloned().unwrap_or(RAct::Data(dest.len(), false));
@@ -151,7 +164,57 @@ impl Read for Srw {
         })
     }
 }
+impl Srw {
+    /// a genuinely scattering `read_vectored` (what a socket does): one scripted read over the concatenation of the
+    /// destinations, logged as `RV`.  The adapters' default `read_vectored` never reaches it (it calls `read`); an
+    /// override that forwards the slice list does.
+    fn scatter(&mut self, bufs: &mut [std::io::IoSliceMut<'_>]) -> std::io::Result<usize> {
+        let total: usize = bufs.iter().map(|b| b.len()).sum();
+        let mut tmp: Vec<u8> = Vec::with_capacity(total);
+        for b in bufs.iter() {
+            tmp.extend_from_slice(b);
+        }
+        let before = self.log.borrow().len();
+        let r = self.read(&mut tmp);
+        {
+            let mut lg = self.log.borrow_mut();
+            if lg.len() > before {
+                let last = lg.len() - 1;
+                let e = lg[last].replacen('R', "RV", 1);
+                lg[last] = e;
+            }
+        }
+        let mut off = 0;
+        for b in bufs.iter_mut() {
+            let l = b.len();
+            b.copy_from_slice(&tmp[off..off + l]);
+            off += l;
+        }
+        r
+    }
+}
 impl Write for Srw {
+    fn write_vectored(&mut self, bufs: &[std::io::IoSlice<'_>]) -> std::io::Result<usize> {
+        if !self.vectored {
+            return match bufs.iter().find(|b| !b.is_empty()) {
+                Some(b) => self.write(b),
+                None => self.write(&[]),
+            };
+        }
+        let mut all: Vec<u8> = vec![];
+        for b in bufs {
+            all.extend_from_slice(b);
+        }
+        let before = self.log.borrow().len();
+        let r = self.write(&all);
+        let mut lg = self.log.borrow_mut();
+        if lg.len() > before {
+            let last = lg.len() - 1;
+            let e = lg[last].replacen('W', "WV", 1);
+            lg[last] = e;
+        }
+        r
+    }
     fn write(&mut self, buf: &[u8]) -> std::io::Result<usize> {
         uncounted(|| {
             let a = self.wacts.get(self.wi).cloned().unwrap_or(WAct::Full);
@@ -185,6 +248,10 @@ pub enum AdOp {
     Read(usize),
     Write(Vec<u8>),
     Flush,
+    /// `read_vectored` with destinations of these lengths (the trait's default: `read` into the first non-empty one)
+    ReadV(Vec<usize>),
+    /// `write_vectored` with these slices (default: `write` of the first non-empty one)
+    WriteV(Vec<Vec<u8>>),
 }
 pub fn ops_str(ops: &[AdOp]) -> String {
     if ops.is_empty() {
@@ -195,6 +262,8 @@ pub fn ops_str(ops: &[AdOp]) -> String {
             AdOp::Read(n) => format!("r{}", n),
             AdOp::Write(d) => format!("w{}", hex(d)),
             AdOp::Flush => "f".into(),
+            AdOp::ReadV(l) => format!("R{}", l.iter().map(|k| k.to_string()).collect::<Vec<_>>().join("+")),
+            AdOp::WriteV(l) => format!("W{}", l.iter().map(|d| hex(d)).collect::<Vec<_>>().join("+")),
         })
         .collect::<Vec<_>>()
         .join(",")
@@ -209,6 +278,8 @@ pub fn parse_ops(s: &str) -> Option<Vec<AdOp>> {
             b'r' => AdOp::Read(t[1..].parse().ok()?),
             b'w' => AdOp::Write(crate::replay::unhex(&t[1..])?),
             b'f' if t.len() == 1 => AdOp::Flush,
+            b'R' => AdOp::ReadV(if t.len() == 1 { vec![] } else { t[1..].split('+').map(|x| x.parse().ok()).collect::<Option<Vec<usize>>>()? }),
+            b'W' => AdOp::WriteV(if t.len() == 1 { vec![] } else { t[1..].split('+').map(crate::replay::unhex).collect::<Option<Vec<Vec<u8>>>>()? }),
             _ => return None,
         });
     }
@@ -271,6 +342,29 @@ fn drive<T: Read + Write>(x: &mut T, ops: &[AdOp], reads_only: bool, allocs_on_o
                     Err(_) => out.push("panic".into()),
                 }
             }
+            AdOp::ReadV(lens) => out.push(readv(x, lens, allocs_on_ok)),
+            AdOp::WriteV(slices) if !reads_only => {
+                let mut a = 0u64;
+                let r = catch_unwind(AssertUnwindSafe(|| {
+                    let ios: Vec<std::io::IoSlice> = slices.iter().map(|d| std::io::IoSlice::new(d)).collect();
+                    let s = count_on();
+                    let r = x.write_vectored(&ios);
+                    a = count_off(s);
+                    r
+                }));
+                match r {
+                    Ok(r) => {
+                        if r.is_ok() {
+                            *allocs_on_ok += a;
+                        }
+                        out.push(format!("w{}", res_str(&r)))
+                    }
+                    Err(_) => {
+                        count_off(0);
+                        out.push("panic".into())
+                    }
+                }
+            }
             _ => {}
         }
     }
@@ -278,6 +372,36 @@ fn drive<T: Read + Write>(x: &mut T, ops: &[AdOp], reads_only: bool, allocs_on_o
         "-".into()
     } else {
         out.join(",")
+    }
+}
+
+
+/// one `read_vectored` call, rendered like a `read` into the first non-empty destination (what the trait's default does);
+/// a `!` is appended when any other destination was written to
+fn readv<T: Read>(x: &mut T, lens: &[usize], allocs_on_ok: &mut u64) -> String {
+    let mut dests: Vec<Vec<u8>> = lens.iter().map(|k| vec![0x2eu8; *k]).collect();
+    let mut a = 0u64;
+    let r = catch_unwind(AssertUnwindSafe(|| {
+        let mut ios: Vec<std::io::IoSliceMut> = dests.iter_mut().map(|d| std::io::IoSliceMut::new(d)).collect();
+        let s = count_on();
+        let r = x.read_vectored(&mut ios);
+        a = count_off(s);
+        r
+    }));
+    match r {
+        Ok(r) => {
+            if r.is_ok() {
+                *allocs_on_ok += a;
+            }
+            let first = lens.iter().position(|k| *k != 0);
+            let shown: Vec<u8> = first.map(|i| dests[i].clone()).unwrap_or_default();
+            let others_touched = dests.iter().enumerate().any(|(i, d)| Some(i) != first && d.iter().any(|b| *b != 0x2e));
+            format!("{}:{}{}", res_str(&r), hex(&shown), if others_touched { "!" } else { "" })
+        }
+        Err(_) => {
+            count_off(0);
+            "panic".into()
+        }
     }
 }
 
@@ -292,6 +416,10 @@ fn drive_reads<T: Read>(x: &mut T, ops: &[AdOp]) -> String {
                 Ok(r) => out.push(format!("{}:{}", res_str(&r), hex(&dest))),
                 Err(_) => out.push("panic".into()),
             }
+        }
+        if let AdOp::ReadV(lens) = op {
+            let mut dummy = 0u64;
+            out.push(readv(x, lens, &mut dummy));
         }
     }
     if out.is_empty() {
@@ -313,6 +441,8 @@ fn logstr(l: &Log) -> String {
 pub fn chain_line(s1: &Srw, s2: &Srw, ops: &[AdOp], w: &mut impl std::io::Write) {
     let log = Log::default();
     let (mut a, mut b) = (s1.twin(&log), s2.twin(&log));
+    a.vectored = true;
+    b.vectored = true;
     let mut allocs = 0u64;
     let impl_res = {
         let mut chain = ReadWriteChain::new(&mut a, &mut b);
@@ -365,6 +495,7 @@ pub fn chainbuf_line<const N: usize>(content: &[u8], ri: usize, s2: &Srw, ops: &
 pub fn take_line(s: &Srw, limit: u64, ops: &[AdOp], w: &mut impl std::io::Write) {
     let log = Log::default();
     let mut a = s.twin(&log);
+    a.vectored = true;
     let mut allocs = 0u64;
     let impl_res = {
         let mut take = ReadWriteTake::new(&mut a, limit);
@@ -398,7 +529,7 @@ fn seqs<T: Clone>(alpha: &[T], maxlen: usize) -> Vec<Vec<T>> {
 }
 
 pub fn mk(id: usize, data: &[u8], racts: Vec<RAct>) -> Srw {
-    Srw { id, data: data.to_vec(), pos: 0, racts, ri: 0, wacts: vec![], wi: 0, facts: vec![], fi: 0, log: Log::default() }
+    Srw { id, data: data.to_vec(), pos: 0, racts, ri: 0, wacts: vec![], wi: 0, facts: vec![], fi: 0, log: Log::default(), vectored: false }
 }
 
 fn random_srw(rng: &mut Rng, id: usize) -> Srw {
@@ -425,7 +556,7 @@ fn random_srw(rng: &mut Rng, id: usize) -> Srw {
         .collect();
     let f = rng.below(3);
     let facts = (0..f).map(|_| if rng.chance(1, 3) { Some(5) } else { None }).collect();
-    Srw { id, data, pos: 0, racts, ri: 0, wacts, wi: 0, facts, fi: 0, log: Log::default() }
+    Srw { id, data, pos: 0, racts, ri: 0, wacts, wi: 0, facts, fi: 0, log: Log::default(), vectored: false }
 }
 
 fn random_ops(rng: &mut Rng, writes: bool) -> Vec<AdOp> {
@@ -446,9 +577,55 @@ fn random_ops(rng: &mut Rng, writes: bool) -> Vec<AdOp> {
         .collect()
 }
 
+/// operation lists that go through the vectored entry points of the Read / Write traits
+fn vectored_ops() -> Vec<Vec<AdOp>> {
+    use AdOp::*;
+    vec![
+        vec![ReadV(vec![]), Read(4), Read(4)],
+        vec![ReadV(vec![0]), Read(4), Read(4)],
+        vec![ReadV(vec![0, 0]), Read(4), Read(4)],
+        vec![ReadV(vec![2, 2]), ReadV(vec![2, 2]), Read(4)],
+        vec![ReadV(vec![0, 3]), ReadV(vec![1, 1, 1]), Read(4)],
+        vec![ReadV(vec![1, 4]), ReadV(vec![4, 1]), ReadV(vec![9])],
+        vec![Read(1), ReadV(vec![3, 3]), Read(0), ReadV(vec![0]), Read(4)],
+        vec![WriteV(vec![]), WriteV(vec![vec![]]), WriteV(vec![b"xy".to_vec(), b"z".to_vec()]), Flush],
+        vec![WriteV(vec![vec![], b"pq".to_vec(), b"rst".to_vec()]), ReadV(vec![2, 2]), Write(b"u".to_vec()), ReadV(vec![0, 1])],
+    ]
+}
+
 pub fn run(mode: &str, thorough: bool, seed: u64, w: &mut impl std::io::Write) {
     let mut rng = Rng(seed ^ 0xad);
     let mut n = 0usize;
+    // the vectored calls of the trait surface, on chain and take
+    if mode == "chain" {
+        let a = [RAct::Data(1, false), RAct::Data(3, false), RAct::Eof, RAct::Err(5)];
+        for r1 in seqs(&a, 2) {
+            for d1 in [&b""[..], b"AB", b"ABCDE"] {
+                for r2 in seqs(&a, 1) {
+                    let (mut s1, mut s2) = (mk(1, d1, r1.clone()), mk(2, b"cdefgh", r2.clone()));
+                    s1.wacts = vec![WAct::Part(1)];
+                    s2.wacts = vec![WAct::Full, WAct::Part(1), WAct::Err(4)];
+                    for ops in vectored_ops() {
+                        chain_line(&s1, &s2, &ops, w);
+                        n += 1;
+                    }
+                }
+            }
+        }
+    }
+    if mode == "take" {
+        let a = [RAct::Data(1, false), RAct::Data(3, false), RAct::Data(100, false), RAct::Eof, RAct::Err(5)];
+        for r in seqs(&a, 2) {
+            for limit in [0u64, 1, 3, 5, 100, u64::MAX] {
+                let mut s = mk(1, b"abcdefgh", r.clone());
+                s.wacts = vec![WAct::Full, WAct::Part(1), WAct::Err(4)];
+                for ops in vectored_ops() {
+                    take_line(&s, limit, &ops, w);
+                    n += 1;
+                }
+            }
+        }
+    }
     let dests: Vec<Vec<AdOp>> = seqs(&[0usize, 1, 4], 3).into_iter().filter(|s| !s.is_empty()).map(|s| s.into_iter().map(AdOp::Read).collect()).collect();
     if mode == "chain" {
         let a1 = [RAct::Data(1, false), RAct::Data(2, false), RAct::Eof, RAct::Err(5), RAct::Data(2, true)];
